@@ -10,6 +10,7 @@ import Enc.Spec.Json.StdDec
 import Enc.Model.Json.DynNumber
 import Enc.Spec.Json.DynNumber
 import Enc.Model.Json.Own
+import Enc.Spec.Json.Cyclic
 /-! line-protocol handlers, area `json` (syntax layer). -/
 namespace Enc.Driver.Json
 open Enc
@@ -18,13 +19,11 @@ def handle (op : String) (args : List String) : Option (String × String × Stri
   match op, args with
   | "json.valid", [h] => do
     let b ← fromHex h
-    let k := if Spec.Json.validRFC b && !Spec.Json.validStd b then "jsonDepthOver10000" else ""
-    pure (boolStr (Model.Json.valid b), boolStr (Spec.Json.validStd b), k)
+    pure (boolStr (Model.Json.valid b), boolStr (Spec.Json.validStd b), "")
   -- syntax-only consumers: the language they accept must be that of Valid
   | "json.consumer", [_which, h] => do
     let b ← fromHex h
-    let k := if Spec.Json.validRFC b && !Spec.Json.validStd b then "jsonDepthOver10000" else ""
-    pure ("-", boolStr (Spec.Json.validStd b), k)
+    pure ("-", boolStr (Spec.Json.validStd b), "")
   -- json.stream <events> <final>: events = comma-separated d:<hex> (data) | e:<hex> (data delivered with the final error)
   | "json.stream", [evs, fin] => do
     let final := if fin == "eof" then Model.Json.Stream.RErr.eof else .other
@@ -57,7 +56,7 @@ def handle (op : String) (args : List String) : Option (String × String × Stri
   | "json.parserem", [h] => do
     let b ← fromHex h
     let b0 := Model.Json.skipSpaces b
-    let m := match Model.Json.parseValue (Model.Json.internalParseFlags b) (Model.Json.fuelFor b0) b0 with
+    let m := match Model.Json.parseValue (Model.Json.internalParseFlags b) 0 (Model.Json.fuelFor b0) b0 with
       | .ok _ r => "ok:" ++ toHex (Model.Json.skipSpaces r)
       | .err _ => "err"
     let b1 := Spec.Json.ws b
@@ -120,6 +119,16 @@ def handle (op : String) (args : List String) : Option (String × String × Stri
       | some p => if empty then "empty" else if p == .input then "in" else "out"
     let sres := if mres == "err" || mres == "empty" then mres else if flagOn then "-" else "out"
     pure (mres, sres, "")
+  -- json.cycle <root> <graph>: graph = nodes separated by ';', node = <kind p|s|m>:<child ids separated by ','>
+  | "json.cycle", [root, gr] => do
+    let root ← root.toNat?
+    let nodes ← (gr.splitOn ";").filter (· ≠ "") |>.mapM fun nd =>
+      match nd.splitOn ":" with
+      | [_, cs] => ((cs.splitOn ",").filter (· ≠ "")).mapM (·.toNat?)
+      | _ => none
+    let m := match Model.Json.Cycle.marshal nodes root with
+      | .ok => "ok" | .cycle => "err" | .outOfFuel => "fuel"
+    pure (m, if Spec.Json.cyclicFrom nodes root then "err" else "ok", "")
   | "json.decstr", [h] => do
     let b ← fromHex h
     let sh : Option Bytes → String := fun | some v => "ok:" ++ toHex v | none => "err"
